@@ -102,7 +102,9 @@ pub fn run(ctx: &Ctx) -> usize {
   } else {
     (13..=(9999 * 12 + 10)).collect()
   };
-  let lyears: Vec<i64> = if ctx.quick() { (0..120).map(|_| rng.range(31, 9989)).chain([2020i64, 2023, 1582].into_iter()).collect() } else { (0..600).map(|_| rng.range(31, 9989)).collect() };
+  // lunar years outside the AD 236-240 reform period (its irregular months are C03 findings); thorough: every 4th year
+  let lyears: Vec<i64> = if ctx.quick() { (0..120).map(|_| rng.range(31, 9989)).chain([2020i64, 2023, 1582].into_iter()).collect() } else { (31..=9989).step_by(4).collect() };
+  let lyears: Vec<i64> = lyears.into_iter().filter(|y| !(234..=242).contains(y)).collect();
   let mp = crate::windows::deal(months, ctx.threads);
   let lp = crate::windows::deal(lyears, ctx.threads);
   let mut total = 0usize;
